@@ -2,18 +2,25 @@ CONSTANTS
   Model = {"m1", "m2", "m3"}
   DataOf <- DataOfDef
   ParamOf <- ParamOfDef
+  Proc = {1}
   Names <- NamesAll
   Ops <- OpsQuick
   MaxOps = 3
   MaxCrashes = 1
-  MaxN = 3
+  MaxN = 4
   TrackHist = FALSE
-  Fix = {}
+  Legacy = {}
 INIT Init
 NEXT Next
 INVARIANT TypeOK
 INVARIANT PendingGuards
 INVARIANT DatainfoLast
+INVARIANT IndexImpliesComplete
 INVARIANT LocksScoped
-INVARIANT CleanStoreWorks
+INVARIANT LogHeaderOK
+INVARIANT InvI
+INVARIANT InvDOther
+INVARIANT InvA
+INVARIANT InvAnn
+INVARIANT InvLogNoTorn
 CHECK_DEADLOCK FALSE
